@@ -613,6 +613,20 @@ def implicit_suite(stats, tier=None, names=("SolveMatrix", "FEM"), label="implic
                     ok, msg = close_jac(rJ, mJ, rtol=1e-7, fvals=res, xvals=floats)
                     if not ok:
                         dis.append(dict(kind="jacobian", component=name, size=(nx, ny, sym), detail="linearize: " + msg))
+                    if name == "FEM":
+                        # the sparse coordinate list itself: k_rows, k_cols (exact) and k_data against the transliterated list
+                        kl = np.asarray(c["inputs"]["local_stiff_transformed"], dtype=float).ravel()
+                        mp = core.model_value("FEMPattern", c["ints"], kl)
+                        decl = np.concatenate([np.asarray(comp.k_rows, dtype=float), np.asarray(comp.k_cols, dtype=float),
+                                               np.asarray(comp.k_data, dtype=float)])
+                        n3 = len(comp.k_rows)
+                        if decl.shape != mp.shape or not np.array_equal(decl[:2 * n3], mp[:2 * n3]):
+                            dis.append(dict(kind="pattern", component=name, size=(nx, ny, sym),
+                                            detail="k_rows / k_cols differ from the transliterated coordinate list (%d vs %d entries)" % (decl.size // 3, mp.size // 3)))
+                        else:
+                            ok, msg = close_vec(decl[2 * n3:], mp[2 * n3:], rtol=1e-14)
+                            if not ok:
+                                dis.append(dict(kind="pattern", component=name, size=(nx, ny, sym), detail="k_data: " + msg))
                     h = case_hash(name, c["ints"], floats); nontrivial = bool(np.any(res != 0))
                 except DriverError as e:
                     if "timed out" in str(e) or "not built" in str(e):
